@@ -362,7 +362,7 @@ func genC12(dir, tier string, seed int64) {
 	shapes := shapesUpToRank(0, 4, []int{1, 2, 3})
 	reps := 30
 	if tier == "thorough" {
-		reps = 120
+		reps = 400
 	}
 	for _, ti := range ttypes {
 		for rep := 0; rep < reps; rep++ {
